@@ -85,6 +85,11 @@ class HTTPProtocol(BaseGopherProtocol):
                 mtime = time.strftime("%a, %d %b %Y %H:%M:%S GMT", gmtime)
                 self.wfile.write(f"Last-Modified: {mtime}\r\n".encode())
             mimetype = self.entry.getmimetype()
+            if handler.isdir():
+                # What is sent is a listing whenever the handler says so
+                # (Gemini and Spartan decide the same way), whatever type the
+                # entry of a menu-producing object carries.
+                mimetype = "application/gopher-menu"
             mimetype = self.adjustmimetype(mimetype)
             self.wfile.write(f"Content-Type: {mimetype}\r\n\r\n".encode())
             if self.requestparts[0] == "GET":
